@@ -97,3 +97,19 @@ Proof.
   intros E id p y1 y2 H1 H2 Ha V1 V2.
   apply LenProofs.code_len_monotone; [exact V1 | exact V2 | apply nat_of_signed_abs_le; assumption].
 Qed.
+
+(* C06 for signed values: the length functions on the mapped value give exactly the bits written and consumed *)
+Theorem signed_len_exact :
+  forall E Dw Dr checks id p flw flr y pre post strict cap pk,
+  (- 2 ^ 63 <= y < 2 ^ 63)%Z -> valid id p (nat_of_signed y) -> maxcap <= cap ->
+  exists cw pk' x l,
+    wrun (swprims E checks) (sel_write E Dw checks id p flw (nat_of_signed y)) pre = Ok (l, pre ++ cw) /\
+    rrun (sprims E strict cap) (sel_read E Dr id p flr) (mkr (cw ++ post) (LEN pre) pk)
+      = Ok (x, mkr post (LEN pre + l) pk') /\
+    l = LEN cw /\ sel_len Dw id p flw (nat_of_signed y) = Some l /\ sel_len Dr id p flr (nat_of_signed y) = Some l.
+Proof.
+  intros E Dw Dr checks id p flw flr y pre post strict cap pk Hy Hv Hc.
+  destruct (CodesTheorems.roundtrip E Dw Dr checks id p flw flr (nat_of_signed y) pre post strict cap pk Hv Hc)
+    as (cw & pk' & Hw & Hr & L1 & L2).
+  exists cw, pk', (nat_of_signed y), (LEN cw). repeat split; assumption.
+Qed.
